@@ -167,6 +167,49 @@ fn decode_case(g: &mut Gen, ctx: &mut Ctx) -> CaseResult {
         entries.insert(at, (junk, gen_value(g, 1, false)));
         ctx.class("dup-followed-by-non-label-key");
     }
+    // ... or with entries that are a fault only once they have been read: the second half of an IV /
+    // Partial-IV pair, a typed parameter of the wrong kind, an empty crit / key_ops list
+    if g.ratio(1, 6) {
+        let has = |es: &Vec<(Item, Item)>, l: i128| es.iter().any(|(k, _)| k == &Item::Int(l));
+        let mut tail: Vec<(Item, Item)> = vec![];
+        match ty {
+            MapTy::Header => match g.below(3) {
+                0 => {
+                    if !has(&entries, 5) {
+                        tail.push((Item::Int(5), Item::Bytes(g.nonempty_bytes())));
+                    }
+                    if !has(&entries, 6) {
+                        tail.push((Item::Int(6), Item::Bytes(g.nonempty_bytes())));
+                    }
+                    if g.bool() {
+                        tail.reverse();
+                    }
+                }
+                1 if !has(&entries, 4) => tail.push((Item::Int(4), Item::Int(0))),
+                _ if !has(&entries, 2) => tail.push((Item::Int(2), Item::Array(vec![]))),
+                _ => {}
+            },
+            MapTy::Key => {
+                if !has(&entries, 2) {
+                    tail.push((Item::Int(2), Item::Text("kid".into())));
+                } else if !has(&entries, 4) {
+                    tail.push((Item::Int(4), Item::Array(vec![])));
+                }
+            }
+            MapTy::Claims => {
+                if !has(&entries, 1) {
+                    tail.push((Item::Int(1), Item::Int(5)));
+                }
+            }
+        }
+        if !tail.is_empty() {
+            for e in tail {
+                let at = later + 1 + g.below(entries.len() - later);
+                entries.insert(at, e);
+            }
+            ctx.class("dup-followed-by-a-fault-that-shows-later");
+        }
+    }
     let map = Item::Map(entries.clone());
     let mut without_later = entries.clone();
     without_later.remove(later);
